@@ -120,6 +120,8 @@ type vfLinkCfg struct {
 	HealUs     int64     `json:"heal,omitempty"` // virtual µs after establishment; 0 = stochastic faults never stop
 	Blackouts  [][3]int64 `json:"blackouts,omitempty"`
 	Script     []vfFault `json:"script,omitempty"`
+	HoleTSN    uint32    `json:"holetsn,omitempty"`   // direction 0: packets carrying this TSN ...
+	HoleTimes  int       `json:"holetimes,omitempty"` // ... are dropped this many times
 	Lockstep   bool      `json:"lockstep,omitempty"`
 	FaultsFromStart bool `json:"ffs,omitempty"` // apply stochastic faults to the handshake as well
 }
